@@ -53,6 +53,18 @@ def setup(ctx):
         SimpleCloudsContribution, FlatMieContribution, LeeMieContribution
     from taurex.contributions.hm import HydrogenIon
     base.setup(ctx)
+    install_component_taps(ctx)
+
+
+def install_component_taps(ctx):
+    """The generator tap (copy of every yielded component at yield time) and the prepare tap (summed sigma).  Also used by
+    C01's `components` workload, so that the cross-sections the transit integral is fed are judged there as well."""
+    if _rec.get('installed'):
+        return
+    _rec['installed'] = True
+    from taurex.contributions import Contribution, AbsorptionContribution, CIAContribution, RayleighContribution, \
+        SimpleCloudsContribution, FlatMieContribution, LeeMieContribution
+    from taurex.contributions.hm import HydrogenIon
 
     def wrap_gen(cls):
         orig = cls.__dict__['prepare_each']
@@ -82,6 +94,7 @@ def setup(ctx):
 
 def teardown(ctx):
     taps.untap_all()
+    _rec['installed'] = False
 
 
 # ---------------------------------------------------------------- generators
